@@ -18,7 +18,8 @@ EXTENDS Integers, Sequences, FiniteSets, TLC
 
 CONSTANTS W,          \* worker slots, e.g. {1, 2}
           NT,         \* tasks per call
-          Calls, Kills, SpawnFirst
+          Calls, Kills, SpawnFirst,
+          FlagFirst   \* TRUE (current): terminate_broken flags the executor as broken BEFORE failing the pending work items
 
 Tasks == 1..NT
 VARIABLES ws,        \* [W -> "absent" | "idle" | "running" | "sending" | "dead"]
@@ -27,7 +28,7 @@ VARIABLES ws,        \* [W -> "absent" | "idle" | "running" | "sending" | "dead"
           queue,     \* call queue (sequence of tasks)
           resq,      \* results sitting in the result pipe
           fut,       \* [Tasks -> "none" | "pending" | "done" | "error"]
-          mgr,       \* "absent" | "waiting" | "awake"
+          mgr,       \* "absent" | "waiting" | "awake" | "breaking" (inside terminate_broken) | "gone" (thread exited)
           snap,      \* workers whose sentinels the sleeping manager thread watches
           wake,      \* wake-up pipe has data
           broken, pc, call, kills, failed, faultInCall, submitted
@@ -111,22 +112,29 @@ MgrWake ==
   /\ mgr = "waiting" /\ (resq # {} \/ wake \/ (\E i \in snap : ws[i] = "dead"))
   /\ mgr' = "awake" /\ wake' = FALSE
   /\ UNCHANGED <<ws, wt, lock, queue, resq, fut, snap, broken, pc, call, kills, failed, faultInCall, submitted>>
+\* terminate_broken is two steps the caller can interleave with: flag the executor as broken (submits fail from then on) and
+\* fail every pending future; afterwards every worker is killed and the manager thread exits ("gone")
+FailPending == fut' = [t \in Tasks |-> IF fut[t] = "pending" THEN "error" ELSE fut[t]]
 MgrStep ==
   /\ mgr = "awake"
   /\ IF \E i \in snap : ws[i] = "dead"
-     THEN \* terminate_broken: flag, fail every pending future, kill every worker
-          /\ broken' = TRUE
-          /\ fut' = [t \in Tasks |-> IF fut[t] = "pending" THEN "error" ELSE fut[t]]
-          /\ ws' = [i \in W |-> IF ws[i] = "absent" THEN "absent" ELSE "dead"]
-          /\ queue' = <<>> /\ resq' = {} /\ UNCHANGED <<wt, lock>>
+     THEN /\ mgr' = "breaking"
+          /\ IF FlagFirst THEN broken' = TRUE /\ UNCHANGED fut ELSE FailPending /\ UNCHANGED broken
+          /\ UNCHANGED <<ws, wt, lock, queue, resq, snap>>
      ELSE /\ fut' = [t \in Tasks |-> IF t \in resq /\ fut[t] = "pending" THEN "done" ELSE fut[t]]
           /\ resq' = {} /\ UNCHANGED <<ws, wt, lock, queue, broken>>
-  /\ mgr' = "waiting" /\ snap' = {i \in W : ws'[i] # "absent"}
+          /\ mgr' = "waiting" /\ snap' = {i \in W : ws[i] # "absent"}
   /\ UNCHANGED <<wake, pc, call, kills, failed, faultInCall, submitted>>
+MgrBreak ==
+  /\ mgr = "breaking"
+  /\ IF FlagFirst THEN FailPending /\ UNCHANGED broken ELSE broken' = TRUE /\ UNCHANGED fut
+  /\ ws' = [i \in W |-> IF ws[i] = "absent" THEN "absent" ELSE "dead"]
+  /\ queue' = <<>> /\ resq' = {} /\ mgr' = "gone" /\ snap' = {}
+  /\ UNCHANGED <<wt, lock, wake, pc, call, kills, failed, faultInCall, submitted>>
 
-Next == \/ CallBegin \/ Ensure1 \/ Ensure2 \/ Submit \/ Retrieve \/ MgrWake \/ MgrStep
+Next == \/ CallBegin \/ Ensure1 \/ Ensure2 \/ Submit \/ Retrieve \/ MgrWake \/ MgrStep \/ MgrBreak
         \/ \E i \in W : Take(i) \/ Finish(i) \/ Send(i) \/ Kill(i)
-Fairness == /\ WF_vars(CallBegin \/ Ensure1 \/ Ensure2 \/ Submit \/ Retrieve) /\ WF_vars(MgrWake) /\ WF_vars(MgrStep)
+Fairness == /\ WF_vars(CallBegin \/ Ensure1 \/ Ensure2 \/ Submit \/ Retrieve) /\ WF_vars(MgrWake) /\ WF_vars(MgrStep) /\ WF_vars(MgrBreak)
             /\ \A i \in W : WF_vars(Take(i)) /\ WF_vars(Finish(i)) /\ WF_vars(Send(i))
 Spec == Init /\ [][Next]_vars /\ Fairness
 
